@@ -188,6 +188,8 @@ class Database(object):
 
         # Reference for server implementation:
         # https://docs.mongodb.com/manual/reference/command/renameCollection/
+        if name == new_name:
+            raise OperationFailure("Can't rename a collection to itself", 20)
         if not self._store[name].is_created:
             raise OperationFailure(
                 'The collection "{0}" does not exist.'.format(name), 10026)
